@@ -5,4 +5,5 @@ From Coq Require Import ExtrOcamlBasic.
 From VV Require Import Base.F64 Fitness.FitnessDefs.
 Extraction "fitness_model.ml" F64.of_bits F64.to_bits
   eq_vec ne lt_lex gt ge le dominating plus minus times div_scalar mul_scalar
-  vabs vsqrt round_to vis_finite vis_nan distance combine_fit make_measurements mm_ge best_of keep_better.
+  vabs vsqrt round_to vis_finite vis_nan distance combine_fit make_measurements mm_ge best_of keep_better
+  issmall isnonnegative almost_equal default_ae_epsilon vissmall visnonnegative valmost_equal.
